@@ -18,6 +18,7 @@ mod codec18_der;
 mod pdus;
 mod csspgate;
 mod nla;
+mod secrets;
 
 use std::io::{self, BufRead, Write};
 
@@ -57,6 +58,7 @@ fn dispatch(op: &str, args: &[&str]) -> String {
         "chal" => nla::op_chal(args),
         "unwrap" => nla::op_unwrap(args),
         "csspnla" => nla::op_cssp(args),
+        "sec17" => secrets::op_sec17(args),
         _ => format!("unknown-op:{}", op),
     }
 }
